@@ -393,6 +393,11 @@ def check_pow2_guard(ctx, rule, fi, assumptions=None, extra=None, min_m=1, param
         if rej is None:
             ctx.unknown(rule, fi, fi.node, f"{fi.qualname}: M power-of-two guard", f"not decided for M = {m}: a test on the path could not be evaluated")
             return
+        if m == 1 and min_m == 1:
+            # 2**0: a one-slot "symbol" carries no bits and is outside every stated range of orders (M in {2, 4, ...}) - either answer
+            if rej and e != "ValueError":
+                exc_bad.append((m, e))
+            continue
         if rej == pow2:
             wrong.append(m)
             where = out.node if out is not None else where
